@@ -175,7 +175,10 @@ Spans of submodels differ:
             submodels={
                 copy.deepcopy(k): copy.deepcopy(v)
                 for k, v in self.__dict__['submodels'].items()
-            }
+            },
+            # (keep the name: the default could clash with a submodel's
+            # identifier even though the original's own name does not)
+            name=copy.deepcopy(self.__dict__['name']),
         )
 
         copied.__dict__.update(
